@@ -442,6 +442,11 @@ class Fill(CellModifierInput):
                     self._universe = get_universe(self.old_universe_number)
         else:
             if not self.set_in_cell_block and self.old_universe_numbers:
+                if len(self._old_numbers) > len(self._problem.cells):
+                    raise MalformedInputError(
+                        self._input,
+                        f"The fill input gives {len(self._old_numbers)} values for {len(self._problem.cells)} cells",
+                    )
                 for cell, old_number in zip(self._problem.cells, self._old_numbers):
                     if not isinstance(old_number, Jump):
                         cell._fill._old_number = old_number
